@@ -22,18 +22,24 @@ import (
 // proxy's); they are logged only while "armed": the first socket action after
 // a hijacking modifier returned, which is what the hijack clause is about.
 type Rec struct {
-	mu      sync.Mutex
-	toks    []string
-	armed   bool
-	act     chan string
-	hadAct  string
-	closed  chan struct{}
-	closedO sync.Once
-	ids     map[string]map[string]int
+	mu     sync.Mutex
+	toks   []string
+	armed  bool
+	act    chan string
+	hadAct string
+	ep     *epoch
+	ids    map[string]map[string]int
+}
+
+// epoch is the close signal of one client connection of the case; a Conn
+// keeps the epoch that was current when it was accepted.
+type epoch struct {
+	closed chan struct{}
+	once   sync.Once
 }
 
 func NewRec() *Rec {
-	return &Rec{act: make(chan string, 4), closed: make(chan struct{}), ids: map[string]map[string]int{}}
+	return &Rec{act: make(chan string, 4), ep: &epoch{closed: make(chan struct{})}, ids: map[string]map[string]int{}}
 }
 
 // Add appends a token.
@@ -92,9 +98,9 @@ func (r *Rec) Index(ns, id string) int {
 	return v
 }
 
-func (r *Rec) sock(kind string) {
+func (r *Rec) sock(kind string, ep *epoch) {
 	r.mu.Lock()
-	if r.armed {
+	if r.armed && ep == r.ep {
 		r.armed = false
 		r.hadAct = kind
 		r.toks = append(r.toks, kind)
@@ -104,8 +110,8 @@ func (r *Rec) sock(kind string) {
 		}
 	}
 	r.mu.Unlock()
-	if kind == "C" {
-		r.closedO.Do(func() { close(r.closed) })
+	if kind == "C" && ep != nil {
+		ep.once.Do(func() { close(ep.closed) })
 	}
 }
 
@@ -131,8 +137,11 @@ func (r *Rec) LastAct() string {
 
 // WaitClosed reports whether the proxy called Close on the client socket.
 func (r *Rec) WaitClosed(d time.Duration) bool {
+	r.mu.Lock()
+	ep := r.ep
+	r.mu.Unlock()
 	select {
-	case <-r.closed:
+	case <-ep.closed:
 		return true
 	case <-time.After(d):
 		return false
@@ -142,8 +151,7 @@ func (r *Rec) WaitClosed(d time.Duration) bool {
 // NewConnEpoch prepares the recorder for the next connection of the case.
 func (r *Rec) NewConnEpoch() {
 	r.mu.Lock()
-	r.closed = make(chan struct{})
-	r.closedO = sync.Once{}
+	r.ep = &epoch{closed: make(chan struct{})}
 	r.armed = false
 	r.hadAct = ""
 	for len(r.act) > 0 {
@@ -156,11 +164,12 @@ func (r *Rec) NewConnEpoch() {
 type Conn struct {
 	net.Conn
 	rec *Rec
+	ep  *epoch
 }
 
-func (c *Conn) Read(b []byte) (int, error)  { c.rec.sock("R"); return c.Conn.Read(b) }
-func (c *Conn) Write(b []byte) (int, error) { c.rec.sock("X"); return c.Conn.Write(b) }
-func (c *Conn) Close() error                { c.rec.sock("C"); return c.Conn.Close() }
+func (c *Conn) Read(b []byte) (int, error)  { c.rec.sock("R", c.ep); return c.Conn.Read(b) }
+func (c *Conn) Write(b []byte) (int, error) { c.rec.sock("X", c.ep); return c.Conn.Write(b) }
+func (c *Conn) Close() error                { c.rec.sock("C", c.ep); return c.Conn.Close() }
 
 // ReadFrom makes the wrapper look like a *net.TCPConn to bufio.Writer.ReadFrom
 // (which otherwise parks tunnel bytes in its buffer): write-through copy.
@@ -186,7 +195,10 @@ func (l *Listener) Accept() (net.Conn, error) {
 	l.mu.Lock()
 	rec := l.rec
 	l.mu.Unlock()
-	return &Conn{Conn: c, rec: rec}, nil
+	rec.mu.Lock()
+	ep := rec.ep
+	rec.mu.Unlock()
+	return &Conn{Conn: c, rec: rec, ep: ep}, nil
 }
 
 var (
